@@ -255,6 +255,14 @@ class EattBearer:
         self.hs.raw.send(self.hs.raw_conn.handle, rl.LE_SIG,
                          rl.sig(rl.CODE_LE_CREDIT, self.next_ident(), struct.pack('<HH', self.my_cid, n)))
 
+    def close(self):
+        """The client closes this enhanced bearer (L2CAP Disconnection Request); the ACL link stays up."""
+        self.hs.raw.send(self.hs.raw_conn.handle, rl.LE_SIG,
+                         rl.sig(rl.CODE_DISC_REQ, self.next_ident(), struct.pack('<HH', self.peer_cid, self.my_cid)))
+        self.dead = True
+        if self in self.hs.eatt:
+            self.hs.eatt.remove(self)
+
     def on_frame(self, payload: bytes):
         self.frames_in += 1
         self.granted -= 1
@@ -461,6 +469,34 @@ class Harness:
     def set_link(self, enc: bool, auth: bool):
         self.server_conn.encryption = 1 if enc else 0
         self.server_conn.authenticated = bool(auth)
+
+    # -- link security through the events the stack receives (C11 histories) -------
+    async def controller_event(self, packet: bytes):
+        """One HCI event packet (indicator byte included), exactly as the server's controller would hand
+        it to the host: through the tapped controller->host pipe of device 0 (logged, delayed and ordered
+        like every other packet of that pipe), then quiescence."""
+        self.rg.c2h[0].on_packet(bytes(packet))
+        await self.rg.quiesce()
+
+    async def pairing_completed(self, authenticated_key: bool, sc: bool = True):
+        """What the SMP session does when a pairing ends well: Device.on_pairing(connection, identity
+        address, keys, sc). The keys say whether the pairing method gave MITM protection."""
+        from bumble.keys import PairingKeys
+        keys = PairingKeys()
+        keys.ltk = PairingKeys.Key(value=bytes(range(16)), authenticated=bool(authenticated_key))
+        self.device.on_pairing(self.server_conn, None, keys, sc)
+        await self.rg.quiesce()
+
+    async def pairing_failed(self, reason: int = 0x05):
+        """...and when it does not: Device.on_pairing_failure(connection, reason)."""
+        self.device.on_pairing_failure(self.server_conn, reason)
+        await self.rg.quiesce()
+
+    def stack_link_state(self):
+        """(encryption, authenticated) as the server's Connection object has them - for the detail text of
+        a violation only, never for a verdict."""
+        c = self.server_conn
+        return getattr(c, 'encryption', None), getattr(c, 'authenticated', None)
 
     async def settle(self, force_wait: bool = False):
         """Quiescence. When a request is still unanswered (or force_wait), let 31 virtual
